@@ -1629,6 +1629,8 @@ def run(ctx):
     ctx.assumptions.append("dates whose calendar day<->date mapping is not self-consistent on this tree (C01 defects: Um Al Qura tail, Badi) are not used as text inputs")
     run_num_correspondence(ctx)
     run_iso_correspondence(ctx, "c07")
+    import textpat
+    textpat.run_engine_correspondence(ctx, hostile=False)
 
 
 def replay_op(op, failure):
